@@ -296,6 +296,19 @@ def rule_publish(cx):
     rep.check(R_F, P + "delivers whenever subscribers exist", not skipped,
               "publish can return without delivering%s" % (" when " + " and ".join(f.text() for f in skipped[0].facts) if skipped and skipped[0].facts else " unconditionally"),
               where=cx.where(rel, skipped[0].node if skipped else fn))
+    # a wrong-type message must be rejected on EVERY path, also when nobody subscribes: no `return` may be reachable
+    # without the positive type test
+    early = []
+    for ev in flow.events:
+        if isinstance(ev.node, ast.Return):
+            has = any(isinstance(f.cond, ast.Call) and callee_name(f.cond) == "isinstance" and len(f.cond.args) == 2 and unp(f.cond.args[0]) == msg
+                      and unp(f.cond.args[1]) == "self.msg_type" and f.pol for f in ev.facts)
+            if not has:
+                early.append(ev)
+    rep.check(R_T, P + "type check dominates every return", not early,
+              "publish can return%s without having tested isinstance(%s, self.msg_type): a wrong-type message is silently accepted on that path" % (
+                  (" when " + " and ".join(f.text() for f in early[0].facts)) if early and early[0].facts else "", msg),
+              where=cx.where(rel, early[0].node if early else fn))
     if tfact is not None:
         rep.ok(R_T, P + "type check dominates the fan-out", fact={"test": tfact.text(), "other side": tfact.origin})
     else:
@@ -1042,6 +1055,18 @@ def rule_estimator(cx, ptable):
         # the period is a refreshed parameter
         pa = P[5:-len(".get()")]
         rep.check(R_R, I + " period %s is a Param in param_list" % P[:-len(".get()")], pa in pattrs, "self.%s is not a uros.Param that params_callback refreshes" % pa, where=cx.where(rel, f.stmt))
+        # the period must be this sensor's configured minimum period, and the time stamp this sensor's
+        pname = None
+        for b in self_assigns(cls, pa):
+            v = b.value
+            if isinstance(v, ast.Call) and v.args and isinstance(v.args[0], ast.Constant) and isinstance(v.args[0].value, str):
+                pname = v.args[0].value
+        if pname is None:
+            rep.incomplete(R_R, I + " uses the %s period" % sensor, "cannot read the parameter name bound to self.%s" % pa, where=cx.where(rel, f.stmt))
+        else:
+            rep.check(R_R, I + " uses the %s minimum period and the %s time stamp" % (sensor, sensor), sensor in pname and sensor in A,
+                      "the %s correction is rate limited with parameter %r and time stamp %s: a different sensor's period/time stamp" % (sensor, pname, A), where=cx.where(rel, f.stmt),
+                      fact={"parameter": pname, "stamp": A})
         # time stamp
         ups = stamp_updates(cx, fn, A, tkey)
         ctx = lambda ev: {x.key() for x in ev.facts if not mentions(x.cond, {("a", A)})}
@@ -1186,7 +1211,7 @@ def run(w, rep, tier):
     rule_estimator(cx, ptable)
     rule_topics(cx)
     # vacuity guard: decided instances confirmed by hand on the tree of 2026-10-02 (usage-count rules get ~80%)
-    for rule, n in (("C20.publish-typecheck", 1), ("C20.publish-fanout", 8), ("C20.registry-writes", 13), ("C20.registry-lock", 8),
+    for rule, n in (("C20.publish-typecheck", 2), ("C20.publish-fanout", 8), ("C20.registry-writes", 13), ("C20.registry-lock", 8),
                     ("C20.param-broadcast", 8), ("C20.param-wiring", 11), ("C20.logger-subscribes-all", 3), ("C20.logger-row", 4),
                     ("C20.logger-callback", 1), ("C20.core-attr-resolves", 25), ("C20.est-predict-dt", 3), ("C20.est-rate-limit", 6),
                     ("C20.topic-types", 40)):
